@@ -35,5 +35,3 @@ pub struct AstPlainCssImport { pub url: Interpolation, pub modifiers: Option<Int
 pub struct AstSassImport { pub url: String, pub span: Span }
 pub enum AstImport { Plain(AstPlainCssImport), Sass(AstSassImport) }
 pub struct AstImportRule { pub imports: Vec<AstImport> }
-// statements: only the variants the slices build
-pub enum AstStmt { SilentComment(AstSilentComment), ImportRule(AstImportRule) }
